@@ -6,6 +6,7 @@
 // arguments and issues fresh ids >= 10^12.
 #include "region.h"
 #include "gen.h"
+#include "c05_open.h"
 #include "clipper2/clipper.h"
 #include <unordered_map>
 
@@ -84,7 +85,15 @@ static void judge(Ctx& ctx, const Case& c, bool from_replay) {
   const int ct = (int)c.geti("ct"), fr = (int)c.geti("fr"); const bool pc = c.geti("pc") != 0, rev = c.geti("rev") != 0;
   Rng zr((uint64_t)c.geti("zseed"), 4242);
   const int cbmode = (int)c.geti("cbmode");      // 0 none, 1 unique-id logger, 2 passive (leaves z), 3 scribbler
-  const bool gp = c.geti("gp") != 0;
+  bool gp = c.geti("gp") != 0;
+  // Z clause premise with open subjects: general position of the whole input, open paths included - every vertex and every
+  // pairwise crossing (open x closed ones too) at least 3 units from every edge it does not lie on. (An open path that
+  // crosses a sliver where two closed edges run less than 3 units apart is a near-triple point: excluded.)
+  if (gp && !O.empty()) {
+    Paths64 closed_in = concat(S, C);
+    gp = c05::mixed_general_position(closed_in, O, std::max(max_abs_coord(closed_in), max_abs_coord(O)), nullptr, false);
+    ctx.count(gp ? "z_premise_open_and_closed_in_general_position" : "z_premise_rejected_open_crossing_within_3_units_of_third_edge");
+  }
   (void)zr; (void)cbmode; (void)gp;
 #ifdef USINGZ
   ZBook zb; const int64_t defz = -777;
@@ -214,8 +223,7 @@ void vf_case(Ctx& ctx, uint64_t i) {
         if (ok) O.push_back(p); }
       c.p64["O"] = O;
       if (fam == 1 && O.empty()) c.seti("gp", 1);
-      // crossings of open segments with crossings of closed edges may be closer than 3: the Z clause only needs
-      // vertices to be unambiguous, which the vertex-distance test above guarantees
+      // (the judge re-checks general position of open and closed paths together before the Z clause is applied)
     }
   } else if (fam == 3) {
     int64_t R = (int64_t)1 << r.irange(6, 30);
